@@ -291,6 +291,13 @@ def faxDims (fixed : Bool) (columns rows : Nat) : Out (Nat × Nat) :=
     if columns = 0 then .panic else .ok (columns % 65536, rows % 65536)
 
 
+/-- `fax_decode` with the data: a coded row takes at least one bit, `/Rows` above `8 · data.len()` is an
+    error. `ok (width, height)`: the decoder writes at most `height` rows of `width` bytes when `height > 0`. -/
+def faxDimsData (columns rows dataLen : Nat) : Out (Nat × Nat) :=
+  match faxDims true columns rows with
+  | .ok (c, r) => if r > 8 * dataLen then .err else .ok (c, r)
+  | o => o
+
 -- ---------------------------------------------------------------------------------------------------
 -- key lengths of the standard security handler (crypt.rs)
 --
